@@ -45,8 +45,9 @@ PROPS = {
         unit("c04", "route", ROUTE_COMMON + ["route/c04_test.go"], "^TestVerifC04"),
         route_sched("c04-sched", "^TestVerifC04Sched", shards={"quick": 1, "thorough": 8}),
         unit("c04-listeners", ".", MAIN_COMMON + ["main/c19_test.go", "main/c16_test.go", "main/c18_sig_test.go", "main/c04_listener_test.go"], "^TestVerifC04Listeners", engines=["vhook"], rewrite=[{"files": ["transport/transport.go"], "opts": ["-sel", "net.Dialer=vhook.Dialer"]}]),
+        unit("c04-registry", "registry/consul", ["consul/c14_test.go", "consul/c04_reg_test.go"], "^TestVerifC04Registry"),
         unit("c04-admin", "admin/api", ["adminapi/c05_test.go", "adminapi/c02_read_test.go"], "^TestVerifC02AdminRead", sched_env={"VERIF_ADMIN_PROP": "C04"}),
-    ], layers={"quick": ["c04-add", "c04-weightcmd", "c04-cursor", "c04-sched", "c04-listeners", "c04-admin"], "thorough": ["c04-add", "c04-weightcmd", "c04-cursor", "c04-sched", "c04-listeners", "c04-admin"]}),
+    ], layers={"quick": ["c04-add", "c04-weightcmd", "c04-cursor", "c04-sched", "c04-listeners", "c04-admin", "c04-registry"], "thorough": ["c04-add", "c04-weightcmd", "c04-cursor", "c04-sched", "c04-listeners", "c04-admin", "c04-registry"]}),
     "C05": dict(level="model_checking", engine="xstate",
         technique="explicit-state BFS over route-command scripts with a reference interpreter; each transition rebuilds the real table with NewTable and compares",
         level_text="All reachable reference states of a 30-command alphabet (add/del/weight in every documented form, hosts in mixed case, tags, opts, weights) are explored breadth-first (quick: depth 5 with state de-duplication; thorough: until the frontier empties); every transition is executed on the real parser + table and compared field by field with an independent interpreter; every state round-trips through Parse(Table.String()).",
